@@ -188,6 +188,19 @@ class _StmtRng:
         return getattr(self.cur, name)
 
 
+_NO_SEMI_CONS = ("nonblockdo", "labeldo", "program", "module", "submodule", "subroutine", "function", "blockdata",
+                 "type", "interface", "enum")
+
+
+def _joinable_after_semicolon(st):
+    """statements that may follow a `;`: simple statements (also labelled ones) and the
+    statements of block constructs (opener with or without construct name and label, ELSE,
+    END); not program-unit / type / interface statements and not label-DO machinery"""
+    if st.cons is None:
+        return st.role == "simple"
+    return st.cons not in _NO_SEMI_CONS and st.role in ("open", "mid", "close")
+
+
 def render_free(prog, rng, opts=None, comment_texts=None):
     """-> Laid.  `rng` may be an int (layout seed: per-statement streams, stable under
     shrinking) or a random.Random."""
@@ -265,8 +278,7 @@ def render_free(prog, rng, opts=None, comment_texts=None):
         # ';' join with following simple statements; a trailing comment of the line stays at
         # its end (it then belongs to the whole line: delivered after the last statement)
         while (opts.p_semi and i + 1 < n and len(pieces) == 1 and rng.random() < opts.p_semi
-               and flat[i + 1][0].label is None and flat[i][0].role == "simple"
-               and flat[i + 1][0].role == "simple" and flat[i + 1][0].cons is None and flat[i][0].cons is None):
+               and flat[i][0].role == "simple" and flat[i][0].cons is None and _joinable_after_semicolon(flat[i + 1][0])):
             nxt = flat[i + 1][0]
             t2 = nxt.text() if opts.case == "keep" else join_natural([recase(t, opts.case, rng) for t in nxt.toks])
             cur = laid.lines[-1]
